@@ -13,6 +13,7 @@ import importlib
 import multiprocessing as mp
 import sys
 import types
+from pathlib import Path
 
 from harness.adapters import idioms
 from harness.adapters.pymini import _reachable, _truthy_of
@@ -37,6 +38,17 @@ class _CodeInfo:
         self.nxt = {off: (offs[k + 1] if k + 1 < len(offs) else None) for k, off in enumerate(offs)}
 
 
+def _main_guard_lines(src: str) -> set:
+    import ast  # noqa: PLC0415
+
+    out: set = set()
+    for node in ast.parse(src).body:
+        if isinstance(node, ast.If) and isinstance(node.test, ast.Compare) and \
+                isinstance(node.test.left, ast.Name) and node.test.left.id == "__name__":
+            out.update(range(node.lineno, node.end_lineno + 1))
+    return out
+
+
 def ground(name: str, moddir: str) -> dict:
     if moddir not in sys.path:
         sys.path.insert(0, moddir)
@@ -45,8 +57,9 @@ def ground(name: str, moddir: str) -> dict:
     mod_name = f"idm_{name}"
     sys.modules.pop(mod_name, None)
     importlib.invalidate_caches()
-    mod = importlib.import_module(mod_name)
-    fname = mod.__file__
+    fname = str(Path(moddir) / f"{mod_name}.py")
+    src = open(fname).read()
+    guard = _main_guard_lines(src)  # `if __name__ == "__main__":` is never a coverage goal (C08)
     infos: dict = {}
 
     def info(code):
@@ -63,7 +76,8 @@ def ground(name: str, moddir: str) -> dict:
 
     def on_line(code, line):
         if code.co_filename == fname:
-            lines.add(line)
+            if line not in guard:
+                lines.add(line)
         else:
             return mon.DISABLE
         return None
@@ -86,8 +100,26 @@ def ground(name: str, moddir: str) -> dict:
     mon.register_callback(tool, mon.events.BRANCH, on_branch)
     mon.register_callback(tool, mon.events.RAISE, on_raise)
     per_x = []
-    fn = getattr(mod, name)
+
+    def outcomes() -> dict:
+        out: dict = {}
+        for (code, src), takens in branches.items():
+            ins = info(code).jumps[src]
+            for taken in takens:
+                tv = _truthy_of(ins.opname, taken)
+                if tv is not None and ins.positions.lineno not in guard:
+                    out.setdefault(ins.positions.lineno or 0, set()).add(tv)
+        return out
+
     try:
+        # the import itself: its lines and outcomes are part of every result Pynguin reports
+        mon.set_events(tool, mon.events.LINE | mon.events.BRANCH)
+        try:
+            mod = importlib.import_module(mod_name)
+        finally:
+            mon.set_events(tool, 0)
+        import_lines, import_out = set(lines), outcomes()
+        fn = getattr(mod, name)
         for x in INPUTS:
             lines.clear()
             branches.clear()
@@ -98,14 +130,10 @@ def ground(name: str, moddir: str) -> dict:
                 obs = idioms._observe(fn, x)  # noqa: SLF001
             finally:
                 mon.set_events(tool, 0)
-            out: dict = {}
-            for (code, src), takens in branches.items():
-                ins = info(code).jumps[src]
-                for taken in takens:
-                    tv = _truthy_of(ins.opname, taken)
-                    if tv is not None:
-                        out.setdefault(ins.positions.lineno or 0, set()).add(tv)
-            per_x.append({"lines": sorted(lines), "out": sorted([ln, sorted(v)] for ln, v in out.items()),
+            out = outcomes()
+            for ln, v in import_out.items():
+                out.setdefault(ln, set()).update(v)
+            per_x.append({"lines": sorted(lines | import_lines), "out": sorted([ln, sorted(v)] for ln, v in out.items()),
                           "obs": obs, "raised": raised[0] > 0})
     finally:
         mon.register_callback(tool, mon.events.RAISE, None)
@@ -113,13 +141,14 @@ def ground(name: str, moddir: str) -> dict:
         mon.register_callback(tool, mon.events.BRANCH, None)
         mon.free_tool_id(tool)
     # static: conditional jumps per line over every code object of the module
-    src = open(fname).read()
     njumps: dict = {}
     module_lines: set = set()
     for code in _code_objects(compile(src, fname, "exec")):
         module_lines.update(ln for _, _, ln in code.co_lines() if ln is not None)
         for ins in _CodeInfo(code).jumps.values():
             ln = ins.positions.lineno or 0
+            if ln in guard:
+                continue
             njumps[ln] = njumps.get(ln, 0) + 1
     sys.modules.pop(mod_name, None)
     return {"per_x": per_x, "njumps": sorted([ln, n] for ln, n in njumps.items()),
@@ -156,8 +185,9 @@ def _child(conn, names, metrics, moddir):
             tracer = sp.instrumentation_tracer
             per_x, traces = [], []
             with tracer:
-                tracer.init_trace()
-                import_lines = {ln or 0 for ln in sp.lineids_to_linenos(tracer.import_trace.covered_line_ids)}
+                # what Pynguin reports after an execution = import trace merged with the execution's
+                # own trace (init_trace); the ground truth is built the same way
+                import_lines: set = set()
                 for x in INPUTS:
                     tracer.init_trace()
                     obs = idioms._observe(getattr(mod, name), x)  # noqa: SLF001
